@@ -9,6 +9,36 @@ import (
 )
 
 func registerIOIntrinsics(reg func(string, intrinsic), used func(string, intrinsic) intrinsic) {
+	// ---------------- essentials (reflection-based helpers) ----------------
+	delIntr := func(ordered bool) intrinsic {
+		return func(m *Machine, fr *frame, a []value) value {
+			p, ok := a[0].(iface).v.(*value)
+			if !ok {
+				panic(targetPanic{v: "first argument must be slice pointer"})
+			}
+			sl, ok := (*p).([]value)
+			if !ok {
+				panic(targetPanic{v: "first argument must be slice pointer"})
+			}
+			idx := int(m.concInt(a[1], "essentials delete index"))
+			if idx < 0 || idx >= len(sl) {
+				panic(targetPanic{v: "index out of range"})
+			}
+			last := len(sl) - 1
+			if ordered {
+				copy(sl[idx:last], sl[idx+1:])
+			} else {
+				sl[idx] = sl[last]
+			}
+			// the real helper zeroes the vacated slot; its static type is not
+			// needed here because the slot is no longer reachable through *p
+			*p = sl[:last:cap(sl)]
+			return nil
+		}
+	}
+	reg("github.com/unixpickle/essentials.UnorderedDelete", used("essentials.UnorderedDelete/OrderedDelete (direct model of the reflection-based helper)", delIntr(false)))
+	reg("github.com/unixpickle/essentials.OrderedDelete", used("essentials.UnorderedDelete/OrderedDelete (direct model of the reflection-based helper)", delIntr(true)))
+
 	// ---------------- math/rand ----------------
 	unitFloat := func(m *Machine, label string) value {
 		t := m.newInput(label, "f64", m.floatSort(64))
